@@ -1,3 +1,20 @@
 import Holpy.C17.Proofs
+/-
+C17 — property theorems about the model of `prover/congc.py: CongClosure` (`Model.lean`).
+`run ops` is the structure after the operations `ops` (`add_var` / `merge(a, b)` /
+`merge((a1, a2), a)`) from the empty structure; `test` and `explain` do not change the structure,
+so a statement about `run ops` for every `ops` covers every interleaving of merge / test / explain.
+`Cl (eqsOf ops)` is the congruence closure of the merged equations (`Spec.lean`).
+-/
 namespace Holpy.C17
+
+/-- `test` is sound: after any sequence of `add_var`/`merge` calls, `test(a, b) == True` only if
+`a = b` follows from the merged equations by reflexivity, symmetry, transitivity and congruence. -/
+theorem test_sound (ops : List Op) (a b : Cst) (h : test (run ops) a b = .ok true) :
+    Cl (eqsOf ops) a b :=
+  test_sound_of (run_sound ops) h
+
+/- non-vacuity: f(1,2)=3, f(4,5)=6, 1=4, 2=5 makes `test 3 6` true (by congruence). -/
+example : test (run [.mergeF 1 2 3, .mergeF 4 5 6, .mergeC 1 4, .mergeC 2 5]) 3 6 = .ok true := by rfl
+
 end Holpy.C17
